@@ -589,16 +589,17 @@ class EncodeCatRows(Filter[Iterable[Union[Any,Dense,Sparse]], Iterable[Union[Any
                     if K: yield [k,K]
             return o
 
-        def catset(o,k):
-            #k is Tuple[key,list]
-            if len(k) == 2 and isinstance(k[1],list):
-                k,K = k
-                row = o[k]
-                row = list(row) if isinstance(row,tuple) else copy(row)
-                o[k] = row
-                catset(row,K)
-            #k is list of keys
-            else:
+        def catset(o,keys):
+            #keys holds a key for every categorical in o and a [key,keys] pair for every collection in o that holds categoricals
+            for key in keys:
+                if isinstance(key,list):
+                    k,K = key
+                    row = o[k]
+                    row = list(row) if isinstance(row,tuple) else copy(row)
+                    o[k] = row
+                    catset(row,K) #it keeps its place in o so the keys below are still right
+            k = [key for key in keys if not isinstance(key,list)]
+            if k:
                 if get_string:
                     for _k in k:
                         o[_k] = str(o[_k])
@@ -625,14 +626,7 @@ class EncodeCatRows(Filter[Iterable[Union[Any,Dense,Sparse]], Iterable[Union[Any
         if not catkeys:
             yield from rows
         else:
-            #cat_cols is list of numbers or list of lists
-            is_nums = isinstance(catkeys[0],int)
             for row in rows:
                 row = list(row) if isinstance(row,tuple) else copy(row)
-
-                if is_nums:
-                    catset(row,catkeys)
-                else:
-                    for k in catkeys: catset(row,k)
-
+                catset(row,catkeys)
                 yield row
